@@ -1,7 +1,7 @@
 """X21 — the file name of an `include is the operand without its delimiters, for every form of the directive.
 
 The include arm derives a path from (a) the lexeme of a "..." literal, (b) the lexeme of a <...> literal, (c) the text a
-macro expands to (IEEE 1800-2017 22.4: `include `MACRO where the macro's text is a "file name"; the expansion may carry
+macro expands to (`include `MACRO where the macro's text is a "file name" or a <file name>; the expansion may carry
 white space around the quotes — the blank between the macro's body and a trailing comment, a trailing blank of the `define
 line).  The derivation is a short chain of pure string operations (`trim`, `trim_matches(c)`, …, possibly inside a helper).
 The rule evaluates that chain, as written in the source, over a small domain of representative operands and demands
@@ -77,7 +77,7 @@ class Interp:
         k = e.get('k')
         if k == 'lit' and e.get('t') in ('str', 'char'):
             return e['v']
-        if k in ('ref', 'paren', 'deref', 'unary'):
+        if k in ('ref', 'paren', 'deref') or (k == 'unary' and e.get('op') in ('*', '&')):
             return self.ev(e['e'], env)
         if k == 'path':
             if e['p'] in env:
@@ -122,6 +122,13 @@ class Interp:
                     while s.endswith(c):
                         s = s[:-len(c)]
                 return s
+            if m in ('starts_with', 'ends_with') and len(args) == 1:
+                c = self.ev(args[0], env)
+                if isinstance(c, str):
+                    return recv.startswith(c) if m == 'starts_with' else recv.endswith(c)
+                raise Undecided('pattern of `.%s(..)`' % m)
+            if m == 'is_empty' and not args:
+                return recv == ''
             if m == 'replace' and len(args) == 2:
                 a, b = self.ev(args[0], env), self.ev(args[1], env)
                 if isinstance(a, str) and isinstance(b, str) and a:
@@ -153,6 +160,25 @@ class Interp:
                 self.depth -= 1
                 return v
             raise Undecided('call of %s' % f)
+        if k == 'if' and e['c'].get('k') != 'let':
+            c = self.ev(e['c'], env)
+            if not isinstance(c, bool):
+                raise Undecided('condition `%s`' % sq(e['c'])[:40])
+            if c:
+                return self.block(e['t'], env)
+            if 'e' not in e:
+                raise Undecided('`if` without `else` as a value')
+            return self.ev(e['e'], env)
+        if k == 'unary' and e.get('op') == '!':
+            v = self.ev(e['e'], env)
+            if isinstance(v, bool):
+                return not v
+            raise Undecided('negation of a non-boolean')
+        if k == 'binary' and e.get('op') in ('&&', '||'):
+            a, b = self.ev(e['l_'], env), self.ev(e['r'], env)
+            if isinstance(a, bool) and isinstance(b, bool):
+                return (a and b) if e['op'] == '&&' else (a or b)
+            raise Undecided('boolean operands')
         if k == 'if' and e['c'].get('k') == 'let':
             # `if let Some((text, ..)) = <expansion>? { .. } else { .. }`: the branch that has the text
             src = e['c']['e']
@@ -174,10 +200,10 @@ class Interp:
 
 
 FORMS = {
-    # form -> (opening delimiter, closing delimiter, white space around the operand possible?)
-    'DoubleQuote': ('"', '"', False),
-    'AngleBracket': ('<', '>', False),
-    'TextMacroUsage': ('"', '"', True),
+    # form -> (delimiter pairs the operand can have, white space around the operand possible?)
+    'DoubleQuote': ((('"', '"'),), False),
+    'AngleBracket': ((('<', '>'),), False),
+    'TextMacroUsage': ((('"', '"'), ('<', '>')), True),      # the macro's text is either form of file name (22.4)
 }
 NAMES = ('a.svh', 'dir/b c.vh')
 
@@ -200,25 +226,30 @@ def run(ctx):
             if form not in FORMS:
                 r.undecided(key + ':form', where, 'form %s of the include directive is not known to the rule' % form)
                 continue
-            o, c, ws = FORMS[form]
+            delims, ws = FORMS[form]
             pads = [('', '')] + ([(' ', ''), ('', ' '), ('', ' \n'), ('\t', '  ')] if ws else [])
-            bad = None
-            try:
-                for name in NAMES:
-                    for a, b in pads:
-                        raw = a + o + name + c + b
-                        body = arm['body'] if arm['body'].get('k') == 'block' else {'k': 'block', 'stmts': [{'k': 'expr', 'e': arm['body'], 'semi': False}]}
-                        v = Interp(pp, raw).block(body, {})
-                        got = v[1] if isinstance(v, tuple) else v
-                        if got != name and bad is None:
-                            bad = (raw, got)
-            except Undecided as u:
-                r.undecided(key + ':derivation', where, '%s form: the derivation of the file name uses %s, which the rule does not interpret' % (form, u))
-                continue
-            if bad:
-                r.fail(key + ':name-not-bare', where,
-                       '%s form: for the operand %r the derived file name is %r, not the name between the delimiters: the directive then looks for a file '
-                       'that was not named (the order / kind of the trimming steps is wrong)' % (form, bad[0], bad[1]))
+            und = False
+            for o, c in delims:
+                bad = None
+                try:
+                    for name in NAMES:
+                        for a, b in pads:
+                            raw = a + o + name + c + b
+                            body = arm['body'] if arm['body'].get('k') == 'block' else {'k': 'block', 'stmts': [{'k': 'expr', 'e': arm['body'], 'semi': False}]}
+                            v = Interp(pp, raw).block(body, {})
+                            got = v[1] if isinstance(v, tuple) else v
+                            if got != name and bad is None:
+                                bad = (raw, got)
+                except Undecided as u:
+                    if not und:
+                        r.undecided(key + ':derivation', where, '%s form: the derivation of the file name uses %s, which the rule does not interpret' % (form, u))
+                    und = True
+                    continue
+                if bad:
+                    dk = 'quoted' if o == '"' else 'angle'
+                    r.fail(key + ':name-not-bare' + ('' if len(delims) == 1 or dk == 'quoted' else ':' + dk), where,
+                           '%s form: for the operand %r the derived file name is %r, not the name between the delimiters: the directive then looks for a file '
+                           'that was not named (the order / kind of the trimming steps is wrong, or this kind of delimiter is not removed)' % (form, bad[0], bad[1]))
     r.counts['forms'] = seen
     r.floor('include_forms', seen, 3)
     return [r]
